@@ -53,3 +53,6 @@ def run(ctx):
     R3.r18_10_reference_owned_node(ctx)
     from . import shared as S_
     S_.r01_3_recursion(ctx)
+    # a node reached through an alias is seasoned a second time: the transforms must find nothing left to do (kind and presence
+    # are looked at before anything is written)
+    H.r15_2_do_nothing_exits(ctx, 'R18.11', guards_only=True)
